@@ -93,7 +93,7 @@ def check(run: common.Run):
     hist["T09.1 instances on the implementation"] = 4 ** 4 * 4
 
     # (b) processing.fix / chain history = {source}
-    gitems = [it for it in drv.guard_cases(mods, run.tier, only_all_valid=True) if it["which"] != "_replace_nodes"]
+    gitems = [it for it in drv.guard_cases(mods, run.tier, only_all_valid=True, n=4) if it["which"] != "_replace_nodes"]
     bad, errs = drv.run_simple_cases(wd, "fixloop", "guard_case", "guard_case_ok",
                                      [drv.guard_case_to_coq(it) for it in gitems])
     disagreements += errs
@@ -183,7 +183,7 @@ def check(run: common.Run):
               "x {module, indented fragment} (exhaustive, seed independent), successor chains around MAX_FILE_PASSES "
               "(budget exhaustion of either loop), seeded random scripts; result text, full stage trace and preserve "
               "set must equal DriverModel.format_code_run; (b) processing.fix / chain with a scripted rule: all "
-              "f : 3 -> 3 x 3 starts x {max_iter 1, default fix, default chain}; (c) main.format_files with format_file "
+              "f : 4 -> 4 x 4 starts x {max_iter 1, 4, default fix, default chain}; (c) main.format_files with format_file "
               "scripted: all pairs of tables 3 -> 3 on two folders x max_passes in {0,1,2,MAX}, chains beyond the "
               "budget, seeded random folder layouts; per-pass file sets, final contents, return value; 5 cases "
               "through the real multiprocessing pool. Non-trivial = >= 2 multi-run passes with a distinct "
@@ -191,7 +191,7 @@ def check(run: common.Run):
         samples=fc["samples"][:2] + [{"format_files": {"max_passes": fcases[40][0], "folders": fcases[40][1]},
                                       "impl": fobs[40]}],
         exhaustive=True,
-        exhaustive_parts={"format_code_f4x4": True, "fix_f3x3": True, "format_files_pairs_3x3": True},
+        exhaustive_parts={"format_code_f4x4": True, "fix_f4x4": True, "format_files_pairs_3x3": True},
         histogram=dict(hist) | {"format_code scripted: " + k: v for k, v in fc["histogram"].items()},
         correspondence_disagreements=len(disagreements) + n_more,
         sweep=dict(sweep) | {"jobs": len(jobs), "iterations": iters,
